@@ -41,7 +41,7 @@
    at full strength with no guard. *)
 From Coq Require Import String Ascii List Arith NArith ZArith Bool Permutation.
 From PV Require Import Lib.Strings Lib.Decimal Model.PdbRead Model.Group Model.PdbSpec
-  Proofs.PdbRead Proofs.Group Proofs.Ingest Proofs.C07Witness.
+  Proofs.PdbRead Proofs.Group Proofs.Ingest Proofs.Ingest2 Proofs.Other Proofs.C07Witness.
 Import ListNotations.
 Local Open Scope string_scope.
 
@@ -166,6 +166,163 @@ Example C07_nonvacuous :
   List.length (cols_read ex_ok) = 4.
 Proof. exact ex_ok_guard. Qed.
 
+(* ==== ALL line lists: the column-1 / parses-by-columns guard G1 replaced by G1' ====
+
+   read_pdb strips every line, so the record a line holds is named by columns 1-6
+   of the STRIPPED line (leading blanks/tabs are ignored; a lower-case or fused
+   record name is an unknown record).  A coordinate line is read by fixed columns
+   from [spec_line]: itself when it has more than 26 (ATOM) / 16 (HETATM) characters,
+   else the fixed-column line pdb.read_atom rebuilds from the words of the line;
+   when that cannot be built the read fails with ValueError (bd8c339).
+   cols_read2 = coordinate lines in front of the second MODEL line (every MODEL
+   line counts, 04a78e7), first listed per identity read from [spec_line].
+
+   G1' = every line is a readline() chunk (not "").  Since the repairs of C07-F7 and
+   C07-F8 nothing else is needed: guard2 = G1' + the two DESIGN guards G2
+   (blank-chain lettering inert) and G5 (no two alias names of one atom in a
+   residue), which C07_blank_chain_segments_refuted / C07_alias_names_refuted show
+   cannot be dropped (behaviour by design). *)
+
+(* loud or complete, for ALL line lists: the read either fails with ValueError -
+   exactly when some coordinate line raises in its parser - or every coordinate
+   line of the first model yields its atom; nothing is dropped silently *)
+Theorem C07_loud_or_complete : forall (fok : string -> bool) (tab : deftab)
+  (lines : list string),
+  guard2 fok tab lines = true ->
+  if existsb (raises fok) lines
+  then ingest fok tab false lines = Raised "ValueError"
+  else exists rs, ingest fok tab false lines = Done rs /\
+         Permutation (map a_src (all_atoms rs)) (map strip (cols_read2 fok lines)).
+Proof. exact loud_or_complete. Qed.
+
+(* ... and each atom carries the fixed-column fields of the text [spec_line] names *)
+Theorem C07_atom_fields_all_lines : forall (fok : string -> bool) (tab : deftab)
+  (lines : list string) (rs : list resid),
+  guard2 fok tab lines = true -> ingest fok tab false lines = Done rs ->
+  forall a, In a (all_atoms rs) ->
+    exists l l', In l (cols_read2 fok lines) /\ spec_line fok l = Some l' /\
+      a_src a = strip l /\
+      Some (a_serial a) = py_int (slice 6 11 l') /\
+      a_chain a = strip (slice 21 22 l') /\
+      Some (a_resseq a) = py_int (slice 22 26 l') /\
+      a_icode a = strip (slice 26 27 l') /\
+      a_x a = strip (slice 30 38 l') /\ a_y a = strip (slice 38 46 l') /\
+      a_z a = strip (slice 46 54 l').
+Proof. exact atom_fields2. Qed.
+
+(* what ONE coordinate line does, for every stripped line s: it raises, or it is read
+   by columns from eff_line (itself or the fallback line); it is never skipped *)
+Theorem C07_coordinate_line_cases : forall (fok : string -> bool) (het : bool) (s : string),
+  atom_outcome fok het s = ORaise \/
+  (exists a l', atom_outcome fok het s = ORec (RAtom a) /\ eff_line fok het s = Some l' /\
+                parse_cols fok het s l' = POk a).
+Proof. exact atom_outcome_cases. Qed.
+
+(* read_pdb on ALL chunk lists: None exactly when a coordinate line raises, else
+   precisely the records of the lines, in order *)
+Theorem C07_read_total : forall (fok : string -> bool) (lines : list string),
+  forallb chunk_ok lines = true ->
+  if existsb (raises fok) lines then read_pdb fok lines = None
+  else exists e, read_pdb fok lines = Some (flat_map (line_recs fok) lines, e).
+Proof. exact read_total. Qed.
+
+(* later models are ignored, over ALL line lists that do not fail loudly (design
+   guard G2; a raising coordinate line of a later model still fails the read) *)
+Theorem C07_later_models_ignored_all_lines : forall (fok : string -> bool) (tab : deftab)
+  (lines : list string),
+  forallb chunk_ok lines = true -> existsb (raises fok) lines = false ->
+  inert (flat_map (line_recs fok) lines) = true ->
+  ingest fok tab false lines = ingest fok tab false (first_model2 false lines).
+Proof. exact later_models_all. Qed.
+
+(* --drop-water = deleting the water coordinate lines, over ALL line lists that do
+   not fail loudly (no other guard) *)
+Theorem C07_drop_water_iff_all_lines : forall (fok : string -> bool) (tab : deftab)
+  (lines : list string),
+  forallb chunk_ok lines = true -> existsb (raises fok) lines = false ->
+  ingest fok tab true lines =
+  ingest fok tab false (filter (fun l => negb (is_water_line2 fok l)) lines).
+Proof. exact drop_water_all. Qed.
+
+(* ---- records of the OTHER classes (HET, SSBOND, CONECT, CRYST1, SEQRES, ..., unknown
+   names): [ingestG] is the ingest with their parsers' behaviour explicit as an
+   oracle oerr (true = KeyError/ValueError: the name goes on errlist and suppresses
+   later records OF THAT NAME).  For EVERY oracle the result is that of the model
+   that ignores them, because errlist suppression is an exact match on the record
+   name and errlist never holds ATOM/HETATM/TER/END/MODEL. *)
+Theorem C07_other_records_exact : forall (fok oerr : string -> bool) (tab : deftab) (d : bool)
+  (lines : list string),
+  ingestG fok oerr tab d lines = ingest fok tab d lines.
+Proof. exact ingestG_exact. Qed.
+
+(* inserting ANY line that is neither a coordinate record nor TER/END/MODEL -
+   parsable or not, known record name or not, ENDMDL included - changes nothing *)
+Theorem C07_other_records_irrelevant : forall (fok : string -> bool) (tab : deftab)
+  (oerr : string -> bool) (d : bool) (l1 : list string) (u : string) (l2 : list string),
+  other_line u ->
+  ingestG fok oerr tab d (l1 ++ u :: l2) = ingestG fok oerr tab d (l1 ++ l2).
+Proof. exact other_records_irrelevant. Qed.
+
+(* the former refutation witnesses of the repaired defects C07-F7 / C07-F8 now pass:
+   the line without coordinates fails the read loudly, "MODEL 1"/"MODEL 2" separate
+   models; and a HET record its parser rejects does not hide HETATM records *)
+Theorem C07_all_lines_regressions :
+  ((guard2 py_float_ok wtab w_short = true /\
+    existsb (raises py_float_ok) w_short = true /\
+    ingest py_float_ok wtab false w_short = Raised "ValueError") /\
+   (guard2 py_float_ok wtab w_model_free = true /\
+    existsb (raises py_float_ok) w_model_free = false /\
+    serials_of (ingest py_float_ok wtab false w_model_free) = [1]%Z /\
+    List.length (cols_read2 py_float_ok w_model_free) = 1)) /\
+  (serials_of (ingestG py_float_ok (fun _ => true) wtab false w_het) = [1; 2; 3]%Z /\
+   serials_of (ingestG py_float_ok (fun _ => false) wtab false w_het) = [1; 2; 3]%Z).
+Proof. exact (conj all_lines_regressions het_regression). Qed.
+
+(* ---- every cut position of a coordinate line (C07_trailing_columns covers k >= 54) ---- *)
+
+(* cut after column 27..46: always ValueError (the z field is empty) *)
+Theorem C07_cut_before_z : forall (fok : string -> bool) (het : bool) (src l : string) (k : nat),
+  27 <= k -> k <= 46 -> 26 < String.length l -> fok "" = false ->
+  parse_cols fok het src (take k l) = PVal.
+Proof. exact cut_before_z. Qed.
+
+(* cut inside the z field (46..54): if the record is accepted at all, every field is
+   that of the uncut line except z, which is SILENTLY the first k-46 columns of it *)
+Theorem C07_cut_inside_z : forall (fok : string -> bool) (het : bool) (src l : string) (k : nat)
+  (a : atomrec),
+  46 <= k -> k <= 54 -> parse_cols fok het src (take k l) = POk a ->
+  a_src a = src /\
+  Some (a_serial a) = py_int (slice 6 11 l) /\ a_name a = strip (slice 12 16 l) /\
+  a_resname a = strip (slice 17 20 l) /\ a_chain a = strip (slice 21 22 l) /\
+  Some (a_resseq a) = py_int (slice 22 26 l) /\ a_icode a = strip (slice 26 27 l) /\
+  a_x a = strip (slice 30 38 l) /\ a_y a = strip (slice 38 46 l) /\
+  a_z a = strip (slice 46 k l).
+Proof. exact cut_inside_z. Qed.
+
+(* a HETATM line of 17..26 characters raises; an ATOM line of at most 26 and a
+   HETATM line of at most 16 go to the fallback or raise (C07_coordinate_line_cases) *)
+Theorem C07_cut_hetatm_short : forall (fok : string -> bool) (src l : string),
+  16 < String.length l -> String.length l <= 26 -> parse_cols fok true src l = PVal.
+Proof. exact cut_hetatm_short. Qed.
+
+(* non-vacuity of G1' OUTSIDE the old G1: leading blanks and a tab, a line read
+   through the fallback, a line cut inside z, a lower-case record name, " END";
+   and a file that fails loudly *)
+Example C07_nonvacuous_all_lines :
+  (guard2 py_float_ok wtab ex2 = true /\
+   forallb (g_line py_float_ok) ex2 = false /\
+   existsb (raises py_float_ok) ex2 = false /\
+   serials_of (ingest py_float_ok wtab false ex2) = [1; 2; 5; 3]%Z /\
+   List.length (cols_read2 py_float_ok ex2) = 4 /\
+   map (spec_line py_float_ok) (cols_read2 py_float_ok ex2) =
+     [ Some "ATOM      1  N   ALA A   1      11.000  12.000  13.000  1.00  0.00           N";
+       Some "ATOM      2  CA  ALA A   1      12.000  12.000  13.000";
+       Some "ATOM      3 1 2 3 4 5   3          1       2       3     4     5";
+       Some "ATOM      5  N   GLY A   2      15.000  12.000  13.5" ]) /\
+  (guard2 py_float_ok wtab ex2_loud = true /\ existsb (raises py_float_ok) ex2_loud = true /\
+   ingest py_float_ok wtab false ex2_loud = Raised "ValueError").
+Proof. exact (conj ex2_guard ex2_loud_raises). Qed.
+
 Print Assumptions C07_ingest_complete.
 Print Assumptions C07_atom_fields.
 Print Assumptions C07_blank_lines_irrelevant.
@@ -178,3 +335,16 @@ Print Assumptions C07_regressions.
 Print Assumptions C07_blank_chain_segments_refuted.
 Print Assumptions C07_alias_names_refuted.
 Print Assumptions C07_nonvacuous.
+Print Assumptions C07_loud_or_complete.
+Print Assumptions C07_atom_fields_all_lines.
+Print Assumptions C07_coordinate_line_cases.
+Print Assumptions C07_read_total.
+Print Assumptions C07_later_models_ignored_all_lines.
+Print Assumptions C07_drop_water_iff_all_lines.
+Print Assumptions C07_other_records_exact.
+Print Assumptions C07_other_records_irrelevant.
+Print Assumptions C07_all_lines_regressions.
+Print Assumptions C07_cut_before_z.
+Print Assumptions C07_cut_inside_z.
+Print Assumptions C07_cut_hetatm_short.
+Print Assumptions C07_nonvacuous_all_lines.
